@@ -438,7 +438,10 @@ func checkC06(c *Ctx) {
 	} else {
 		scs = append(scs, systematicSelections(rng, 3, 100000)...)
 		scs = append(scs, builtinBoundaryScenarios()...)
-		scs = append(scs, systematicSelections(rng, 4, 3000)...)
+		for _, sc := range systematicSelections(rng, 4, 3000) {
+			sc.ID = "z" + sc.ID // the two systematic families number their scenarios independently
+			scs = append(scs, sc)
+		}
 		scs = append(scs, forestScenarios(rng, 300)...)
 	}
 	refScenarioChecks(c, env, scs, false)
